@@ -132,7 +132,7 @@ def check_field(ev, ci, runm, name, d, tn, xn, want, res):
             any(tkey in k and k != tkey for k in with_t[0].f):
         return bad('abscissae not linear in t', 'the shifted abscissae are not of the form A + c*t with A, c independent of t', X)
     c = Mono(with_t[0].coef, {k: e for k, e in with_t[0].f.items() if k != tkey})
-    if c.key() != ev.as_mono(want).key() if not isinstance(want, Mono) else c.key() != want.key():
+    if not ev.equal(c, want):
         return bad('wave speed is not M0*sqrt(gamma*(gamma-1)*Cv*Tref) of the instance',
                    'the profile moves with speed %s, not with M0*sqrt(gamma*(gamma-1)*Cv*Tref) computed from the '
                    "instance's gamma, Cv and Tref (%s)" % (c.key()[:160], want.key()[:120]), X)
